@@ -331,6 +331,7 @@ def setup():
             print(log[-3000:])
             return 1
         shutil.copy(C.DRIVER_BIN, C.DRIVER_BASE)
+        print("baseline build saved" if C.save_baseline_build() else "baseline build not saved")
         ok, log = C.build_harness()
         if not ok:
             print(log[-3000:])
